@@ -313,7 +313,11 @@ func derivesNC(v ssa.Value, src func(ssa.Value) bool, seen map[ssa.Value]bool, d
 	case *ssa.Extract:
 		return derivesNC(x.Tuple, src, seen, d+1)
 	case *ssa.FieldAddr:
-		return false
+		return derivesNC(x.X, src, seen, d+1)
+	case *ssa.Field:
+		return derivesNC(x.X, src, seen, d+1)
+	case *ssa.IndexAddr:
+		return derivesNC(x.X, src, seen, d+1)
 	}
 	return false
 }
